@@ -124,6 +124,10 @@ func fnExprJS(e *sx) string {
 	case "evd":
 		return "eval(" + strconv.Quote(fnBodyJS(a[0], a[1], a[2])) + ")"
 	case "evi":
+		// two spellings of an indirect call of eval, chosen by the shape of the term
+		if sxLen(e)%2 == 1 {
+			return "eval.call(null, " + strconv.Quote(fnBodyJS(a[0], a[1], a[2])) + ")"
+		}
 		return "(0, eval)(" + strconv.Quote(fnBodyJS(a[0], a[1], a[2])) + ")"
 	case "u":
 		return "(void 0)"
